@@ -901,6 +901,24 @@ class NamesProp(SimpleProp):
                     if a != b:
                         msgs.append(("%s value %s is named %r but %s value %s is named %r (%s)" % (mod, c, a, base, c, b, tag),
                                      "NM %sValueOf %d %s" % (mod, val[(mod, c)], tag)))
+        # cold start: each function as the *first* call into the package in a fresh process (tables built lazily, or in an
+        # order that depends on which function runs first, answer differently there)
+        self.cold = 0
+        allfns = NAME_FUNCS_TITLE + [m[0] + "ValueOf" for m in vec.V3] + ["SeverityValueOf"]
+        for fn in allfns:
+            probes = [(v, tag) for v in ((0,) if fn in NAME_FUNCS_TITLE else (1, 2, 3, 4, 5, 0, 99)) for tag in ("ja", "en", "fr")]
+            pops = ["NM %s %d %s" % (fn, v, tag) for v, tag in probes]
+            pg = core.run_sharded(core.HARNESS, pops, shards=1)
+            self.cold += len(pops)
+            for (v, tag), g in zip(probes, pg):
+                try:
+                    n = core.unhx(core.parse_kv(g).get("name", "-")).decode("utf-8", "replace")
+                except Exception:
+                    n = None
+                if (fn, v, tag) in res and res[(fn, v, tag)] != n:
+                    msgs.append(("%s(%d, %s) is %r when it is the first call into the package in a fresh process, %r otherwise"
+                                 % (fn, v, tag, n, res[(fn, v, tag)]), "NM %s %d %s" % (fn, v, tag)))
+                    break
         for (fn, v, tag), n in res.items():
             if cls.get(tag) == "other" and n != res.get((fn, v, "en")) and (fn, v, "en") in res:
                 msgs.append(("%s(%d) in %s is %r, English is %r" % (fn, v, tag, n, res.get((fn, v, "en"))), "NM %s %d %s" % (fn, v, tag)))
